@@ -46,6 +46,22 @@ def FactsOK : Bool :=
   C23.revPushCall == "R.os.Push(&node{ target: T, DEPTH: DEPTH, })" &&
   C23.isSameTarget == ["if LHS == RHS { return true }", "return LHS.Label.Parent() == RHS.Label.Parent()"] &&
   C23.revInitDepths == ["0", "0"] && C23.revChildCond == "!HIDDEN && !label.IsHidden()" &&
+  -- what the reverse map is, how the walk is seeded (roots and their hidden children at depth 0), the lookup, and the
+  -- entry point of deps (one done map shared by all roots, start level 0)
+  C23.buildRevdeps ==
+    ["F1 := GRAPH.AllTargets()",
+     "F2 := make(map[core.BuildLabel][]*core.BuildTarget, len(F1))",
+     "for _, v01 := range F1 { for _, v02 := range v01.DeclaredDependencies() { if v03 := GRAPH.Target(v02); v03 == nil { F2[v02] = append(F2[v02], v03) } else { for _, v04 := range v03.ProvideFor(v01) { F2[v04] = append(F2[v04], v01) } } } if SUBREPOS && v01.Subrepo != nil && v01.Subrepo.Target != nil { F2[v01.Subrepo.Target.Label] = append(F2[v01.Subrepo.Target.Label], v01) } }",
+     "return F2"] &&
+  C23.findRevdepsEntry ==
+    ["F1 := newRevdeps(STATE.Graph, HIDDEN, FOLLOW, SUBREPOS, DEPTH)",
+     "for _, v01 := range ROOTS { v02 := STATE.Graph.TargetOrDie(v01) F1.os.Push(&node{ v02: v02, DEPTH: 0, }) if !HIDDEN && !v01.IsHidden() { for _, v03 := range STATE.Graph.PackageByLabel(v01).AllTargets() { if v03.Parent(STATE.Graph) == v02 { F1.os.Push(&node{ v02: v03, DEPTH: 0, }) } } } }",
+     "return F1.findRevdeps(STATE)"] &&
+  C23.revLookup ==
+    ["ts := R.revdeps[NEXT.target.Label]"] &&
+  C23.depsEntry ==
+    ["F1 := map[core.BuildLabel]bool{}",
+     "for _, v01 := range ROOTS { deps(OUT, STATE, STATE.Graph.TargetOrDie(v01), F1, LIMIT, 0, HIDDEN, DOT) }"] &&
   -- somepath: guard chain, marking before the loop, iteration, prepending, both directions, memo per target2
   C23.spGuards == ["T1.Label == T2.Label => return []core.BuildLabel{T1.Label}",
     "T1.Parent(GRAPH) == T2 => return []core.BuildLabel{T1.Label}", "SEEN[T1.Label] present => return nil"] &&
@@ -53,6 +69,7 @@ def FactsOK : Bool :=
   C23.spLoop == ["DeclaredDependencies", "ProvideFor", "TargetOrDie", "[]core.BuildLabel{T1.Label}"] &&
   C23.spBothOrder == ["AB", "BA"] && C23.spMemoKey == "T2")
 
+set_option maxRecDepth 100000 in
 /-- Obligation a code change can break. -/
 theorem C23_facts_ok : FactsOK = true := by decide
 
@@ -296,6 +313,61 @@ theorem C23_somepath_iff (G : Graph) (hwf : GWF G) (frm to : List Nat)
       rcases hc with hc | hc
       · exact absurd hc h1.not_conn
       · exact absurd hc h2.not_conn
+
+/-! ### `somepath` in its default mode (no `--hidden`) -/
+
+/-- Soundness in the default mode: what is printed is a real dependency chain between one of the requested pairs,
+with every hidden target replaced by its rule and repeats removed; consecutive printed rules are different and the
+first depends on the second through one of their targets. -/
+theorem C23_somepath_sound_default (G : Graph) (frm to : List Nat) (q : List Nat)
+    (h : somePathAll G false frm to = .found q) :
+    ∃ a ∈ frm, ∃ b ∈ to, ∃ p, (GoodPath G a b p ∨ GoodPath G b a p) ∧ q = compact (p.map G.pl) ∧ RChain G q := by
+  unfold somePathAll at h
+  rw [go_shape] at h
+  cases ht : somePathAll.go G true (frm.flatMap fun a => to.map fun b => (a, b)) [] with
+  | nopath => rw [ht] at h; simp at h
+  | oof => rw [ht] at h; simp at h
+  | found p =>
+    rw [ht] at h
+    simp only [Bool.false_eq_true, ite_false, PRes.found.injEq] at h
+    obtain ⟨a, ha, b, hb, hg⟩ := C23_somepath_sound G frm to p (by unfold somePathAll; exact ht)
+    refine ⟨a, ha, b, hb, p, hg, h.symm, ?_⟩
+    rw [← h]
+    rcases hg with hg | hg <;> exact compact_chain G p hg.2.1
+
+/-- Sound and complete in the default mode: a path is printed if and only if one exists in the resolved graph (between
+some requested pair, in one of the two directions, ending at the other target or one of its hidden sub-targets). -/
+theorem C23_somepath_iff_default (G : Graph) (hwf : GWF G) (frm to : List Nat)
+    (hf : ∀ a ∈ frm, a ∈ G.nodes) (ht : ∀ b ∈ to, b ∈ G.nodes) :
+    (∃ q, somePathAll G false frm to = .found q) ↔ ∃ a ∈ frm, ∃ b ∈ to, Conn G a b ∨ Conn G b a := by
+  rw [← C23_somepath_iff G hwf frm to hf ht]
+  unfold somePathAll
+  rw [go_shape]
+  cases somePathAll.go G true (frm.flatMap fun a => to.map fun b => (a, b)) [] with
+  | nopath => simp
+  | oof => simp
+  | found p => simp
+
+example : somePathAll gW4 false [3] [0] = .found [3, 4, 0] := by decide
+
+/-! ### `revdeps` in its default mode (no `--hidden`) -/
+
+/-- The property as stated for the default mode, completeness half, WITHOUT a level limit (with a limit it fails:
+`C23_revdeps_not_complete`): every target that depends directly on the query — or on anything that transitively
+depends on it — across a rule boundary is reported, as itself or (a hidden `_x#y` target) as its rule `x`.
+PARTIAL: a target joined to the dependants of the query only through edges inside its own rule is represented by the
+member of the rule that crosses the boundary (it has the same `report`); hidden targets whose rule is not a target have
+no `report` and are not printed (that is what the code does, `report = none`). -/
+theorem C23_revdeps_complete_unlimited_default_partial (G : Graph) (roots : List Nat) (hr : ∀ r ∈ roots, r ∈ G.nodes)
+    (x u r : Nat) (hx : x ∈ roots ∨ DependsOn G roots x) (hun : u ∈ G.nodes) (he : Edge G u x)
+    (hcross : isSameTarget G x u = false) (hrep : report G false u = some r) :
+    r ∈ revReported G none false roots :=
+  findRevdeps_reports_crossing genCfg G false roots hr x u r hx hun he (Or.inr hcross) hrep
+
+-- non-vacuity: in gW3, `_B#h` (6) depends on the root R (0) across a rule boundary and is reported as its rule B (5)
+example : (0 ∈ [0] ∨ DependsOn gW3 [0] 0) ∧ 6 ∈ gW3.nodes ∧ Edge gW3 6 0 ∧ isSameTarget gW3 0 6 = false ∧
+    report gW3 false 6 = some 5 ∧ 5 ∈ revReported gW3 none false [0] := by
+  refine ⟨Or.inl (by simp), by decide, by decide, by decide, by decide, by decide⟩
 
 -- non-vacuity: concrete runs of the three models
 example : depsPrinted gW1 none false [0] = [1, 2, 3] := by decide
